@@ -457,6 +457,33 @@ fn hot_drop_case(dir: &Path, rng: &mut Rng, stats: &mut Counts) -> R<String> {
         if inner.verif_pending_work() > 0 || inner.outstanding_flushes() > 0 {
             stats.inc("hot_drop.dropped_with_pending_work");
         }
+        // in half of the rounds another thread keeps writing through its own Keyspace handle while the other
+        // handles are dropped (a write that asks for a memtable rotation can race with the shutdown of the workers);
+        // it stops and drops its handle before the census
+        let writer = if rng.chance(1, 2) {
+            let wks = ks.clone();
+            let stop = Arc::new(AtomicBool::new(false));
+            let s2 = stop.clone();
+            let r = round;
+            let jh = std::thread::Builder::new()
+                .name("late-writer".into())
+                .spawn(move || {
+                    let mut i = 0u64;
+                    while !s2.load(Ordering::Acquire) && i < 4_000 {
+                        // errors (e.g. Poisoned) end the loop; they are not this scenario's concern
+                        if wks.insert(format!("late{r}-{i:05}"), [7u8; 64]).is_err() {
+                            break;
+                        }
+                        i += 1;
+                    }
+                    drop(wks);
+                })
+                .expect("spawn");
+            stats.inc("hot_drop.rounds_with_late_writer");
+            Some((stop, jh))
+        } else {
+            None
+        };
         // handles go in random order, some on other threads
         let mut handles: Vec<Held> = vec![Held::Ks(ks), Held::DbClone(inner), Held::Db(db)];
         let mut joins = Vec::new();
@@ -470,6 +497,11 @@ fn hot_drop_case(dir: &Path, rng: &mut Rng, stats: &mut Counts) -> R<String> {
         }
         for j in joins {
             let _ = j.join();
+        }
+        if let Some((stop, jh)) = writer {
+            std::thread::sleep(std::time::Duration::from_micros(rng.below(3_000)));
+            stop.store(true, Ordering::Release);
+            let _ = jh.join();
         }
         stats.inc("hot_drop.rounds");
         if let Err(mut d) = workers_gone(5_000) {
